@@ -243,21 +243,35 @@ func mutexWaiters() map[string]string {
 	return out
 }
 
-func watchMutexDeadlock(seed uint64) *time.Timer {
-	var t *time.Timer
-	t = time.AfterFunc(8*time.Second, func() {
-		first := mutexWaiters()
-		if len(first) > 0 {
-			time.Sleep(2 * time.Second)
-			second := mutexWaiters()
-			for id, blk := range second {
+type dlWatch struct{ stop chan struct{} }
+
+func (w *dlWatch) Stop() { close(w.stop) }
+
+func watchMutexDeadlock(seed uint64) *dlWatch {
+	w := &dlWatch{stop: make(chan struct{})}
+	go func() {
+		for {
+			select {
+			case <-w.stop:
+				return
+			case <-time.After(8 * time.Second):
+			}
+			first := mutexWaiters()
+			if len(first) == 0 {
+				continue
+			}
+			select {
+			case <-w.stop:
+				return
+			case <-time.After(2 * time.Second):
+			}
+			for id, blk := range mutexWaiters() {
 				if _, still := first[id]; still {
 					fmt.Fprintf(os.Stderr, "panic: deadlock: a goroutine of the code under test has been waiting for a mutex for seconds (seed %d)\n\n%s\n\n", seed, blk)
 					os.Exit(2)
 				}
 			}
 		}
-		t.Reset(8 * time.Second)
-	})
-	return t
+	}()
+	return w
 }
